@@ -237,7 +237,13 @@ Proof. vm_compute. repeat split. Qed.
    (C04_backlog_bound; the join replay of the RTP pack cache holds at most VPS, SPS, PPS and one
    GOP, C04_join_replay_bounded), and of a consumer scripted to panic in its n-th Consume call
    that it is never handed more than n packets and that after the n-th its goroutine is on its
-   exit path or finished and it is out of the map (C04_panic_detaches). *)
+   exit path or finished and it is out of the map (C04_panic_detaches).  When the published ids
+   are pairwise distinct it also demands that what a consumer was handed splits, as for the C01
+   oracle, into a join replay and a live part such that any two consecutive ids of the live part
+   whose published positions are not adjacent - something broadcast in between was dropped for
+   backlog - have the second one start a key frame (C04_drops_gop_aligned,
+   C04_first_kept_after_drop_is_key).  Nothing is demanded of the first live id: where the
+   registration happened is not observable, so packets missing before it need not be drops. *)
 From V Require Import LtsOracle LtsOracleProofs.
 
 Theorem C04_gap_least_is_least : forall pkts,
